@@ -19,7 +19,7 @@ HANG_S = float(os.environ.get("VERIF_HANG_S", "150"))
 # does not: deaths that depend on what the process did before (heap layout, addresses), reproduced twice in fresh processes
 SEQ_CRASH = {}
 HISTORY_CAP = 32 << 20
-RECENT = 4096
+RECENT = 65536
 
 
 class Executor:
